@@ -106,7 +106,10 @@ class RunAnalysisResult:
                 want to do analyses that need to treat missing values
                 differently.
         """
-        return self._list_metrics.fillna(self._defaults)
+        if fill_missing:
+            return self._list_metrics.fillna(self._defaults)
+        else:
+            return self._list_metrics
 
     def list_summary(self, *keys: str) -> pd.DataFrame:
         """
